@@ -277,7 +277,79 @@ def corpus(ctx, res):
     malformed(ctx, res)
 
 
+def inplace_sweep(ctx, res, n):
+    """Histories on ONE input object (transfers forbidden): the unit costs are swept IN PLACE (as the package's own
+    tests do) and at every step reconcile_lca / reconcile_thl on that same object must give what they give on a
+    fresh input with the same costs.  Keeps the duplication-loss model's clauses honest against state kept on, or
+    keyed by, the input object."""
+    import contextlib
+    import io
+
+    from superrec2.utils.dynamic_programming import RetentionPolicy
+
+    from ..sr import algorithms, canon_solution, costs_of, enc_cost
+
+    rng = ctx.rng
+    for _ in range(n):
+        case = big_case(rng, 6, 5) if rng.random() < 0.5 else random_cases(ctx, 1, 5, 5)[0]
+        steps = [solvers.full_costs(case)] + [
+            dict(solvers.full_costs(case), dup=rng.randint(0, 3), floss=rng.choice([0, 0, 1, 2, 3]),
+                 hgt=rng.choice(["inf", "inf", rng.randint(0, 3)]))
+            for _ in range(3)]
+        steps.append(dict(solvers.full_costs(case), hgt="inf", floss=max(1, solvers.full_costs(case)["floss"])))
+        if not sweep_one(res, case, steps):
+            return
+
+
+def sweep_one(res, case, steps):
+    """One history on one input object; False after a violation."""
+    import contextlib
+    import io
+
+    from superrec2.utils.dynamic_programming import RetentionPolicy
+
+    from ..sr import algorithms, canon_solution, costs_of, enc_cost
+
+    if True:
+        inp = build_input(case, force_plain=True)
+        for st in steps:
+            if st["spe"] > st["dup"] + 2 * st["floss"]:
+                st["spe"] = 0
+            v = {**case, "costs": st}
+            inp.costs.clear()
+            inp.costs.update(costs_of(v))
+            for algo, pol in (("lca", "all"), ("thl", "all"), ("thl", "any")):
+                try:
+                    with contextlib.redirect_stderr(io.StringIO()):
+                        outs = [algorithms()[algo](inp)] if algo == "lca" else \
+                            list(algorithms()[algo](inp, getattr(RetentionPolicy, pol.upper())))
+                    got = {"cost": sorted({enc_cost(o.cost()) for o in outs}, key=str),
+                           "sols": sorted((canon_solution(o) for o in outs), key=solution_key)}
+                except Exception as e:  # noqa
+                    got = {"err": type(e).__name__}
+                want = run_algo(v, algo, pol)
+                want.pop("outs", None)
+                res.case({"case": v, "algo": algo, "policy": pol, "inplace": True}, True)
+                res.dist["in-place cost sweep on one input object"] += 1
+                if "err" in got or "err" in want:
+                    if ("err" in got) != ("err" in want):
+                        res.violation(f"{algo} ({pol}) on a reused input object: {got.get('err')} vs fresh {want.get('err')}",
+                                      {"case": v, "history": steps})
+                        return False
+                    continue
+                wc = want["cost"] if isinstance(want["cost"], list) else [want["cost"]]
+                if [str(x) for x in got["cost"]] != [str(x) for x in wc] or \
+                        (pol == "all" and [solution_key(x) for x in got["sols"]] != [solution_key(x) for x in want["sols"]]):
+                    res.violation(
+                        f"{algo} ({pol}): after the costs of the input object were changed in place the result (cost "
+                        f"{got['cost']}) differs from a fresh input with the same costs (cost {want['cost']})",
+                        {"case": v, "history": steps})
+                    return False
+    return True
+
+
 def run(ctx, res):
+    inplace_sweep(ctx, res, ctx.budget(40, 300))
     if ctx.thorough or ctx.deep:
         judge(ctx, res, small_cases(ctx, 3, 3, len(GRID)), float_share=0.1)
         big = [b for b in gen.exhaustive_plain_cases(4, 4)
@@ -325,6 +397,11 @@ def shrink(ctx, violation):
 
 
 def replay(ctx, data):
+    if isinstance(data.get("input"), dict) and data["input"].get("history"):
+        r = Result()
+        sweep_one(r, data["input"]["case"], data["input"]["history"])
+        ok = not r.concrete
+        return ok, ("ok: property holds on this history" if ok else "still fails: " + r.concrete[0]["what"])
     inp = data["input"]
     case = inp["case"] if "case" in inp else inp
     r = Result()
